@@ -43,7 +43,9 @@ func fileCacheKey(m *wasm.Module) (ret filecache.Key) {
 }
 
 func (e *engine) addCompiledModule(module *wasm.Module, cm *compiledModule) (err error) {
-	e.addCompiledModuleToMemory(module, cm)
+	if err = e.addCompiledModuleToMemory(module, cm); err != nil {
+		return
+	}
 	if !module.IsHostModule && e.fileCache != nil {
 		err = e.addCompiledModuleToCache(module, cm)
 	}
@@ -73,7 +75,9 @@ func (e *engine) getCompiledModule(module *wasm.Module, listeners []experimental
 				cm.listenerAfterTrampolines[i] = after
 			}
 		}
-		e.addCompiledModuleToMemory(module, cm)
+		if err = e.addCompiledModuleToMemory(module, cm); err != nil {
+			return nil, false, err
+		}
 		ssaBuilder := ssa.NewBuilder()
 		machine := newMachine()
 		be := backend.NewCompiler(context.Background(), machine, ssaBuilder)
@@ -85,13 +89,17 @@ func (e *engine) getCompiledModule(module *wasm.Module, listeners []experimental
 	return
 }
 
-func (e *engine) addCompiledModuleToMemory(m *wasm.Module, cm *compiledModule) {
+func (e *engine) addCompiledModuleToMemory(m *wasm.Module, cm *compiledModule) error {
 	e.mux.Lock()
 	defer e.mux.Unlock()
+	if e.compiledModules == nil {
+		return errEngineClosed
+	}
 	e.compiledModules[m.ID] = cm
 	if len(cm.executable) > 0 {
 		e.addCompiledModuleToSortedList(cm)
 	}
+	return nil
 }
 
 func (e *engine) getCompiledModuleFromMemory(module *wasm.Module) (cm *compiledModule, ok bool) {
